@@ -23,6 +23,7 @@ impl Compiler {
         requires gen_inv(*old(self))
         ensures
             //@VACUITY
+            sym_wf(final(self).symbols),
             r is Ok ==> ({
                 let n = arguments@.len() as int;
                 let code = final(self).instructions@;
@@ -61,6 +62,7 @@ impl Compiler {
         requires gen_inv(*old(self))
         ensures
             //@VACUITY
+            sym_wf(final(self).symbols),
             r is Ok ==> ({
                 let n = values@.len() as int;
                 let code = final(self).instructions@;
@@ -92,6 +94,7 @@ impl Compiler {
         requires gen_inv(*old(self))
         ensures
             //@VACUITY
+            sym_wf(final(self).symbols),
             r is Ok ==> (logged_in_order(*old(self), *final(self), seq![**left, **index], 0) && final(self).instructions@.last() == opcode_byte(OpCode::IndexGet)),
             r is Ok ==> is_prefix(old(self).instructions@, final(self).instructions@),
             r is Ok ==> gen_post(*old(self), *final(self), true),   // the arm itself meets the generator contract it assumes of its callees
@@ -113,6 +116,7 @@ impl Compiler {
         requires gen_inv(*old(self))
         ensures
             //@VACUITY
+            sym_wf(final(self).symbols),
             r is Ok ==> (logged_in_order(*old(self), *final(self), seq![**right], 0)
                 && ((*operator == Operator::Not && final(self).instructions@.last() == opcode_byte(OpCode::Not))
                     || ((*operator == Operator::Negate || *operator == Operator::Subtract) && final(self).instructions@.last() == opcode_byte(OpCode::Negate)))),
@@ -135,6 +139,7 @@ impl Compiler {
         requires gen_inv(*old(self))
         ensures
             //@VACUITY
+            sym_wf(final(self).symbols),
             r is Ok, final(self).instructions@ == old(self).instructions@.push(opcode_byte(if *value { OpCode::True } else { OpCode::False })),
             r is Ok ==> gen_post(*old(self), *final(self), true),
     {
@@ -154,6 +159,7 @@ impl Compiler {
         requires gen_inv(*old(self))
         ensures
             //@VACUITY
+            sym_wf(final(self).symbols),
             !(MIN_INT <= *value <= MAX_INT) ==> (r is Err && final(self).instructions@ == old(self).instructions@),
             r is Ok ==> ({
                 let code = final(self).instructions@;
@@ -182,6 +188,7 @@ impl Compiler {
         requires gen_inv(*old(self))
         ensures
             //@VACUITY
+            sym_wf(final(self).symbols),
             r is Ok ==> (logged_in_order(*old(self), *final(self), seq![*expr], 0) && final(self).instructions@.last() == opcode_byte(OpCode::Pop)
                 && final(self).last_instruction == Some(OpCode::Pop) && final(self).instructions@.len() == final(self).log@.last().end + 1),
             r is Ok ==> is_prefix(old(self).instructions@, final(self).instructions@), r is Ok ==> gen_inv(*final(self)),
@@ -203,6 +210,7 @@ impl Compiler {
         requires gen_inv(*old(self))
         ensures
             //@VACUITY
+            sym_wf(final(self).symbols),
             !sym_in_function(old(self).symbols) ==> (r matches Err(Error::SyntaxError(_)) && final(self).instructions@ == old(self).instructions@ && final(self).log@ == old(self).log@),
             r is Ok ==> (sym_in_function(old(self).symbols) && logged_in_order(*old(self), *final(self), seq![*expr], 0)
                 && final(self).instructions@.last() == opcode_byte(OpCode::ReturnValue)),
@@ -224,6 +232,7 @@ impl Compiler {
         requires gen_inv(*old(self))
         ensures
             //@VACUITY
+            sym_wf(final(self).symbols),
             block_post(*old(self), *final(self), stmts@, r is Ok),
             r is Ok ==> gen_post(*old(self), *final(self), true),
     {
@@ -236,6 +245,7 @@ impl Compiler {
         requires gen_inv(*old(self))
         ensures
             //@VACUITY
+            sym_wf(final(self).symbols),
             r is Ok ==> ({
                 let code = final(self).instructions@;
                 let n = old(self).instructions@.len() as int;
@@ -262,6 +272,7 @@ impl Compiler {
         requires gen_inv(*old(self))
         ensures
             //@VACUITY
+            sym_wf(final(self).symbols),
             r is Ok ==> ({
                 let code = final(self).instructions@;
                 let n = old(self).instructions@.len() as int;
